@@ -234,6 +234,99 @@ def ballRangeQ (m : Metric P α) (ix : BallIndex P α) (qdim : Nat) (q : P) (r :
     Except NnErr (List (Pt P)) :=
   nnHelper m ix qdim q ix.len (some (m.toR r))
 
+/-! ### the glue around the three indices: `CommonNearestNeighbour`, `from_batch`, one request -/
+
+/-- the enum `CommonNearestNeighbour` -/
+inductive Kind | linear | kd | ball
+  deriving DecidableEq, Repr
+
+/-- `from_batch`: `self.from_batch_with_leaf_size(batch, 2usize.pow(4), dist_fn)` -/
+def defaultLeaf : Nat := 2 ^ 4
+
+/-- the boxed `NearestNeighbourIndex` a build returns (a view of the batch for the linear scan and,
+by contract, for the k-d tree; the tree for the ball tree) -/
+inductive Index (P α : Type) where
+  | linear (dim : Nat) (pts : List (Pt P))
+  | kd (dim : Nat) (pts : List (Pt P))
+  | ball (ix : BallIndex P α)
+
+/-- `CommonNearestNeighbour::from_batch_with_leaf_size`: dispatch on the kind; every kind checks the
+leaf size first and the dimension second (`LinearSearch` in `from_batch_with_leaf_size` + `new`,
+`KdTreeIndex::new`, `BallTreeIndex::new`).  The memory layout of the batch plays no role: all three
+read the batch through `rows()` (the k-d tree copies a row that is not contiguous). -/
+def fromBatchWithLeafSize (m : Metric P α) (mean : List P → P)
+    (split : List (Pt P) → Option (List (Pt P) × P × List (Pt P))) (kind : Kind)
+    (leafSize ncols : Nat) (rows : List P) : Except BuildErr (Index P α) :=
+  match buildCheck ncols leafSize with
+  | .error e => .error e
+  | .ok () => .ok (match kind with
+    | .linear => .linear ncols (enumerate rows)
+    | .kd => .kd ncols (enumerate rows)
+    | .ball => .ball (ballIndex m mean split leafSize ncols rows))
+
+/-- `NearestNeighbour::from_batch` (provided method of the trait) -/
+def fromBatch (m : Metric P α) (mean : List P → P)
+    (split : List (Pt P) → Option (List (Pt P) × P × List (Pt P))) (kind : Kind)
+    (ncols : Nat) (rows : List P) : Except BuildErr (Index P α) :=
+  fromBatchWithLeafSize m mean split kind defaultLeaf ncols rows
+
+/-- `NearestNeighbourIndex::k_nearest` through the box -/
+def Index.kNearest (m : Metric P α) (ix : Index P α) (qdim : Nat) (q : P) (k : Nat) :
+    Except NnErr (List (Pt P)) :=
+  match ix with
+  | .linear dim pts => linearKnnQ m dim qdim q k pts
+  | .kd dim pts => kdKnnQ m dim qdim q k pts
+  | .ball b => ballKnnQ m b qdim q k
+
+/-- `NearestNeighbourIndex::within_range` through the box -/
+def Index.withinRange (m : Metric P α) (ix : Index P α) (qdim : Nat) (q : P) (r : α) :
+    Except NnErr (List (Pt P)) :=
+  match ix with
+  | .linear dim pts => linearRangeQ m dim qdim q r pts
+  | .kd dim pts => kdRangeQ m dim qdim q r pts
+  | .ball b => ballRangeQ m b qdim q r
+
+/-- outcome of one build + query -/
+inductive Reply (P : Type) where
+  | buildErr (e : BuildErr)
+  | nnErr (e : NnErr)
+  | ok (out : List (Pt P))
+
+/-- how an index is built: `from_batch_with_leaf_size(leaf)` or `from_batch` -/
+inductive Form | leaf (leafSize : Nat) | default
+
+/-- the leaf size a build form passes on -/
+def Form.leafSize : Form → Nat
+  | .leaf l => l
+  | .default => defaultLeaf
+
+def buildForm (m : Metric P α) (mean : List P → P)
+    (split : List (Pt P) → Option (List (Pt P) × P × List (Pt P))) (kind : Kind) (form : Form)
+    (ncols : Nat) (rows : List P) : Except BuildErr (Index P α) :=
+  match form with
+  | .leaf l => fromBatchWithLeafSize m mean split kind l ncols rows
+  | .default => fromBatch m mean split kind ncols rows
+
+/-- build an index of `kind` over `rows`, then ask for the `k` nearest points of `q` -/
+def knnRequest (m : Metric P α) (mean : List P → P)
+    (split : List (Pt P) → Option (List (Pt P) × P × List (Pt P))) (kind : Kind) (form : Form)
+    (ncols : Nat) (rows : List P) (qdim : Nat) (q : P) (k : Nat) : Reply P :=
+  match buildForm m mean split kind form ncols rows with
+  | .error e => .buildErr e
+  | .ok ix => match ix.kNearest m qdim q k with
+    | .error e => .nnErr e
+    | .ok out => .ok out
+
+/-- build an index of `kind` over `rows`, then ask for the points within `r` of `q` -/
+def rangeRequest (m : Metric P α) (mean : List P → P)
+    (split : List (Pt P) → Option (List (Pt P) × P × List (Pt P))) (kind : Kind) (form : Form)
+    (ncols : Nat) (rows : List P) (qdim : Nat) (q : P) (r : α) : Reply P :=
+  match buildForm m mean split kind form ncols rows with
+  | .error e => .buildErr e
+  | .ok ix => match ix.withinRange m qdim q r with
+    | .error e => .nnErr e
+    | .ok out => .ok out
+
 end generic
 
 /-! ### the provided metrics on coordinate lists -/
